@@ -260,6 +260,14 @@ async def connection_level(chk, rng, meter, quick):
             if pos == "handshake" and build:
                 # rebuild the mutation on the real nonce where possible: keep the mutated bytes as they are
                 pass
+            if pos not in ("handshake", "switch-reply") and rng.random() < 0.12:
+                # the same packet under a sequence id the server does not expect: one ERR at most, and then the connection
+                # is closed or still in step — the bytes of the rejected packet are never taken for further packets
+                seq = rng.choice([1, 2, 7, 255])
+                name = name + "+wrong-sequence-id"
+                if rng.random() < 0.5:
+                    payload = pkt(0, b"\x0e") + pkt(0, b"\x03select 1")      # a payload that itself looks like framed commands
+                chk.count("conn:wrong-sequence-id")
             meter.start(120 * len(payload) + 20000)
             import time as _time
             t0 = _time.perf_counter()
@@ -288,6 +296,8 @@ async def connection_level(chk, rng, meter, quick):
                 errs = [p for _, p in out if p[:1] == b"\xff"]
                 if len(errs) > 1:
                     chk.fail("more than one ERR for one packet", what)
+                if len(out) > 1 and "wrong-sequence-id" in name:
+                    chk.fail("a rejected packet's payload was executed as further commands", what)
                 r = await a.cmd(b"\x0e")
                 if not (len(r) == 1 and r[0][0] == 1 and r[0][1][:1] == b"\x00"):
                     chk.fail("offending connection is wedged / out of step after the packet", dict(what, ping_reply=[(q, p[:8].hex()) for q, p in r]))
